@@ -41,7 +41,7 @@ def main(tier="quick"):
     ok &= expect_violation("F6 absent inputs", "DTCWT2", dict(d2, HWCodes={404, 608}), "InvAbsentOK", shards=1)
     ok &= expect_violation("F10 scat extension", "Scat", dict(SizeSet=models.rng(2, 16), CSet={1}, ExtFix=False), "SizeOK2", shards=1)
     cfg = os.path.join(scratch(), "neg-sess.cfg")
-    tlc.write_cfg(cfg, dict(Threads={1, 2}, Mods={1}, Cfgs={1, 2}, Args={1, 2}, MaxStages=1, Depth=8, Memo=True), ["Deterministic"])
+    tlc.write_cfg(cfg, dict(Threads={1, 2}, Mods={1}, Cfgs={1, 2}, Args={1, 2}, MaxStages=1, Depth=8, Memo=True, Bias=False), ["Deterministic"])
     res = tlc.run_one("Session", cfg, 1, "neg-sess", coverage=False, simulate="num=300", extra_args=["-depth", "12"], timeout=300)
     hit = any(v["invariant"] == "Deterministic" for v in res.violations)
     print("%-34s %s   (Deterministic in the memoised-helper model)" % ("C15 memo model", "ok" if hit else "FAILED"))
